@@ -145,9 +145,9 @@ pub fn judge(run: &Run, file: Option<Vec<u8>>, expected: &[u8], plan: &[String])
                 Some(b) => out.push(("ok-but-file-differs".into(), format!("to_file returned Ok under fault plan {:?} but the file has {} bytes instead of the {} bytes of the in-memory rendering (first difference at {:?})", plan, b.len(), expected.len(), b.iter().zip(expected.iter()).position(|(x, y)| x != y)))),
                 None => out.push(("ok-but-no-file".into(), format!("to_file returned Ok under fault plan {:?} but there is no file", plan))),
             }
-            if run.injected_hard > 0 {
-                out.push(("ok-despite-hard-fault".into(), format!("to_file returned Ok although a hard fault was delivered (plan {:?}; log {:?})", plan, run.log)));
-            }
+            // Ok with exactly the right bytes in the file is right however it got there: a writer that recovers from a
+            // failed attempt (temporary file refused -> in-place write, retry after a refused open) is not at fault
+            let _ = run.injected_hard;
         }
         "err" => {
             if run.injected_hard == 0 && run.injected_soft == 0 && plan.is_empty() {
@@ -194,7 +194,7 @@ fn judge_os(run: &Run, path: &str) -> Vec<(String, String)> {
 
 pub fn run(ctx: &Ctx) -> Collector {
     let col = Collector::new("C19", "fault_enumeration");
-    col.set_rule("cases = for SvgBuilder::to_file and ImageBuilder::to_file on 8 (thorough 14) builder/symbol targets whose output sizes range from 0.3 KB to 0.5 MB and straddle the 4 KiB, 8 KiB and 64 KiB buffer sizes: (i) real OS faults: missing directory, path is a directory, /dev/full (ENOSPC at write time), path containing NUL, empty path, long paths with multi-byte characters at four alignments, a 300-character name; (i') no fault over 7 kinds of file already present (identical, same length differing in the last / first / one late byte, longer, shorter, empty); (ii) faults injected below the crate by an LD_PRELOAD shim over open/open64/openat/write/close: ALL fault sequences of up to 2 (thorough 3) deviations, a deviation = (k-th open of the target, class in {EACCES, EROFS, ENOENT, EISDIR, ENOSPC, EMFILE}) or (k-th write to the target, class in {ENOSPC, EIO, EDQUOT, EINTR, short 1 byte, short n/2, short n-1}), k ranging over every call index in the syscall log of the run being extended (DFS over prefixes); each run is a child process calling the real to_file, once with no file present and once over a stale 1 MiB file (longer than any output); oracle: no panic/abort; Ok => file bytes = to_str()/to_bytes() of the same builder; a delivered hard fault => Err; retryable faults (EINTR, short writes) may end either way; non-trivial = a fault was delivered; distinct = distinct (target, plan) pairs with distinct syscall logs");
+    col.set_rule("cases = for SvgBuilder::to_file and ImageBuilder::to_file on 8 (thorough 14) builder/symbol targets whose output sizes range from 0.3 KB to 0.5 MB and straddle the 4 KiB, 8 KiB and 64 KiB buffer sizes: (i) real OS faults: missing directory, path is a directory, /dev/full (ENOSPC at write time), path containing NUL, empty path, long paths with multi-byte characters at four alignments, a 300-character name; (i') no fault over 7 kinds of file already present (identical, same length differing in the last / first / one late byte, longer, shorter, empty); (ii) faults injected below the crate by an LD_PRELOAD shim over open/open64/openat/write/close: ALL fault sequences of up to 2 (thorough 3) deviations, a deviation = (k-th open of the target, class in {EACCES, EROFS, ENOENT, EISDIR, ENOSPC, EMFILE}) or (k-th write to the target, class in {ENOSPC, EIO, EDQUOT, EINTR, short 1 byte, short n/2, short n-1}), k ranging over every call index in the syscall log of the run being extended (DFS over prefixes); each run is a child process calling the real to_file, once with no file present and once over a stale 1 MiB file (longer than any output); oracle: no panic/abort; Ok => file bytes = to_str()/to_bytes() of the same builder; after any delivered fault Err is accepted, Ok only with the exact bytes in the file (a writer that recovers and completes the file is right); non-trivial = a fault was delivered; distinct = distinct (target, plan) pairs with distinct syscall logs");
     col.assume("the OS below the syscall boundary is modelled by the shim's fault classes; faults at close/fsync are not modelled because the crate does not call fsync and ignores close errors like std does");
     let thorough = ctx.tier.thorough();
     let dir = format!("{}/scratch/c19-{}", ctx.verif_dir, std::process::id());
